@@ -355,6 +355,10 @@ def edge_dominates(cfg, fn, br, label, ins):
 class EvalUnknown(Exception):
     pass
 
+class PathEnd(Exception):
+    """raised by a hook / observer to end the current path (its outcome is ('end', mem))"""
+    pass
+
 def _signed(v, w):
     v &= (1 << w) - 1
     return v - (1 << w) if v >> (w - 1) else v
@@ -367,12 +371,14 @@ class MiniEval:
     Values: python int (signed, normalised to the instruction's width) or ('sym', text).
     hook(ins, argvals, mem) -> value | None: called for every call; None = opaque (symbolic result, memory untouched).
     Outcomes: list of ('ret', value, mem) | ('exit', callee, argvals, mem) | ('dead', mem)."""
-    def __init__(s, prog, hook=None, max_steps=40000, max_paths=256, memo=False, inline=True, stop=None):
+    def __init__(s, prog, hook=None, max_steps=40000, max_paths=256, memo=False, inline=True, stop=None, observe=None, max_visits=None):
         """memo: a branch on a symbolic condition that was already decided on this path (same memory cell, not stored
         since) takes the same edge again (`if (!optarg && ..) .. if (!optarg)`).  inline: evaluate small callees that
         get a concrete argument.  stop: instruction at which a path ends with outcome ('hit', regs, mem)."""
         s.prog = prog; s.hook = hook; s.max_steps = max_steps; s.max_paths = max_paths
         s.steps = 0; s.paths = 0; s.memo = memo; s.inline = inline; s.stop = stop
+        s.observe = observe            # observe(store instruction, regs, mem) for every store executed; may raise PathEnd
+        s.max_visits = max_visits      # a path that enters the same block more often is cut (loops on symbolic bounds)
         s.nr = prog.noreturn()
     @staticmethod
     def _norm(p):
@@ -419,12 +425,17 @@ class MiniEval:
                     elif op == 'alloca': pass
                     elif op == 'load':
                         k = s.key(res, x.ops[0])
-                        regs[x.res] = mem[k] if k in mem else ('sym', ('mem', k))
+                        if s.memo and 'elem' in str(k): regs[x.res] = mem[k] if False else ('sym', 'element')     # g[i] for different i are different cells: no identity
+                        else: regs[x.res] = mem[k] if k in mem else ('sym', ('mem', k))
                     elif op == 'store':
                         k = s.key(res, x.ops[1])
                         v = s.val(x.ops[0], regs)
+                        if s.observe is not None:
+                            try: s.observe(x, regs, mem)
+                            except PathEnd:
+                                out.append(('end', mem)); done = True; break
                         if s.memo and isinstance(v, tuple): v = ('sym', ('mem', k))      # an unknown value: from now on "what cell k holds"
-                        mem[k] = v
+                        if not (s.memo and 'elem' in str(k)): mem[k] = v
                         if s.memo and mem.get('__dec__'):
                             mem['__dec__'] = {b_: v_ for b_, v_ in mem['__dec__'].items() if not s._mentions(b_, k)}
                     elif op in ('sext', 'bitcast', 'ptrtoint', 'inttoptr', 'freeze'):
@@ -480,7 +491,9 @@ class MiniEval:
                             if da is not None and da.op == 'alloca':
                                 k = ('local', da.res); mem.pop(k, None)
                                 if mem.get('__dec__'): mem['__dec__'] = {b_: v_ for b_, v_ in mem['__dec__'].items() if not s._mentions(b_, k)}
-                        r = s.hook(x, av, mem) if s.hook is not None else None
+                        try: r = s.hook(x, av, mem) if s.hook is not None else None
+                        except PathEnd:
+                            out.append(('end', mem)); done = True; break
                         g = s.prog.fn(x.callee) if isinstance(x.callee, str) else None
                         if r is None and s.inline and g is not None and g.blocks and depth < 2 and any(isinstance(a, int) for a in av) and sum(len(b.ins) for b in g.blocks) <= 120:
                             # small helper with a concrete argument (a status predicate): evaluate it
@@ -535,6 +548,10 @@ class MiniEval:
                     if '__dec__' in m2: m2['__dec__'] = dict(m2['__dec__'])
                     work.append((fn.bmap[lab], 0, blk, dict(regs), m2))
                 prev = blk; blk = fn.bmap[nxt[0]]; idx = 0
+                if s.max_visits is not None:
+                    vis = dict(mem.get('__vis__', {})); vis[blk.name] = vis.get(blk.name, 0) + 1; mem['__vis__'] = vis
+                    if vis[blk.name] > s.max_visits:
+                        out.append(('cut', mem)); break
         return out
 
 
